@@ -173,7 +173,11 @@ theorem C15_reschedule (recent lifetime birth : Int) (c : Chan) (id numtodo : Na
 `recent > birth + lifetime`, and under it every report of the letters qmail-lspawn/qmail-rspawn
 produce (K, Z, D) finishes the recipient: a `Z` is handled as `D`, bounced with the report text followed
 by the "too long" sentence; no reported recipient stays to be retried, and a pass that ends with nothing
-to do removes the message from the channel. -/
+to do removes the message from the channel.
+(Audit note: the first and the last conjunct restate the definitions of `jobOpen` / `jobClose` — they pin down the
+transcription of `flagdying = (recent > birth + lifetime)` and `if (!numtodo) unlink`, nothing more; the content is in
+conjuncts 2–3 (`Z` under `flagdying` is a failure carrying the too-long text; no K/Z/D report leaves a recipient) and, at
+history level, in `C15_hist_expire`.) -/
 theorem C15_dying (recent lifetime birth : Int) (c : Chan) (text : Bytes) :
     ((jobOpen recent lifetime birth c).dying = true ↔ recent > birth + lifetime) ∧
     report true 90 text = .failure (text ++ tooLong) ∧
@@ -183,11 +187,13 @@ theorem C15_dying (recent lifetime birth : Int) (c : Chan) (text : Bytes) :
   intro letter hl
   rcases hl with hl | hl | hl <;> subst hl <;> simp [report, Act.staysTodo]
 
-/-- before expiry a temporary failure leaves the recipient to be retried (and nothing is bounced) -/
+/-- before expiry a temporary failure leaves the recipient to be retried (and nothing is bounced).
+(An evaluation of `report`, i.e. of the transcription of del_dochan's switch — not independent evidence for the expiry clause.) -/
 theorem C15_dying_not (text : Bytes) : report false 90 text = .deferral ∧ Act.deferral.staysTodo = true := by
   simp [report, Act.staysTodo]
 
-/-- complement: a report that is none of K, Z, D is "mangled" and deferred — even in the expiring pass -/
+/-- complement: a report that is none of K, Z, D is "mangled" and deferred — even in the expiring pass
+(again an evaluation of `report`) -/
 theorem C15_dying_mangled (dying : Bool) (letter : Byte) (text : Bytes) (h1 : letter ≠ 75) (h2 : letter ≠ 90)
     (h3 : letter ≠ 68) : report dying letter text = .mangled := by
   simp [report, h1, h2, h3]
@@ -272,14 +278,22 @@ theorem C15_retry_mono (recent recent' birth : Int) (c : Chan) (h : recent ≤ r
 
 open Nq.SchedHist Nq.Spec.SchedHist Nq.Lemmas.SchedHist
 
-/-- **No early retry, over all quiet histories.**  A pass on channel `c` at time `t = s.clock` starts message
-`pe.id` (born at `m.birth`) and leaves a recipient to do (a temporary failure, or a mangled report).  Then in
-EVERY continuation made of clock changes (forwards or backwards), wake-up computations, further passes on either
-channel with arbitrary reports and arbitrary injected system failures (open/getinfo "trouble", unlink failure,
-stat failure), and clean restarts (TERM `pqfinish`, new process `pqstart`) — of any length —, whenever
-`pass_dochan(c)` starts that message again, the entry it starts carries a due time `≥ birth + (⌊√(t-birth)⌋+skip)²`,
-and the clock has reached it; that back-off time was strictly in the future at `t`.  (Not covered, on purpose:
-ALRM — see `C15_hist_alrm` —, files changed from outside, crash restarts.) -/
+/-- **No early retry, over all quiet histories of UNINTERRUPTED passes.**  A pass on channel `c` at time `t = s.clock`
+starts message `pe.id` (born at `m.birth`) and leaves a recipient to do (a temporary failure, or a mangled report).
+Then in every continuation made of the `QStep`s — clock changes (forwards or backwards), wake-up computations,
+further uninterrupted passes on either channel with arbitrary reports and arbitrary injected system failures
+(open/getinfo "trouble", unlink failure, stat failure), and clean restarts (TERM `pqfinish`, new process `pqstart`)
+BETWEEN passes — of any length —, whenever `pass_dochan(c)` starts that message again, the entry it starts carries a
+due time `≥ birth + (⌊√(t-birth)⌋+skip)²`, and the clock has reached it; that back-off time was strictly in the
+future at `t`.
+Scope (audit): a pass is ONE step of this model — opened, every recipient answered and job_close at one clock value —
+so `t` is at once the time the job is opened, the time of the failure and the time of the re-insertion, and nothing
+(in particular no TERM) happens while a pass is open; the first two conjuncts are `C15_future`, the substance is
+conjuncts 3–4.  `QStep` has no step that creates or takes in another message (`BStep.arrive` exists for the bounded-time
+theorems).  Passes that are interrupted — clock ticks, the other channel, reports of other jobs, TERM + exit + restart while
+the pass is open — are covered by `C15_pass_backoff` over `Nq.SchedPass.pstep`, where the back-off time is the one
+computed when the job was OPENED.  Not covered, on purpose: ALRM — see `C15_hist_alrm` —, files changed from outside,
+crash restarts. -/
 theorem C15_hist_backoff (s : HSt) (hwf : WF s) (c : Chan) (letters : List Byte) (f : Fault) (pe : Elt) (m : Msg)
     (hstart : started s c = some pe) (hm : s.find pe.id = some m) (hf : f.trouble = false)
     (hage : s.clock - m.birth < 4294967296)
@@ -323,6 +337,7 @@ theorem C15_hist_wf (s : HSt) (x : Step) (hwf : WF s) : WF (step s x).1 := by
   | wake => exact hwf
   | fin => exact wf_finSt hwf
   | pass c l f => exact wf_passSt hwf c l f
+  | arrive id n0 n1 => exact wf_arriveSt hwf id n0 n1
   | bad => exact hwf
 
 /-- … hence over every history from a well-formed state (the empty queue is one). -/
@@ -342,7 +357,9 @@ theorem C15_hist_noloss (s : HSt) (hwf : WF s) :
       ∀ c l f, Tracked (step s (.pass c l f)).1) :=
   ⟨tracked_loadSt s, fun ht => ⟨fun t => tracked_tick ht t, ht, tracked_alrmSt ht, fun c l f => tracked_passSt hwf ht c l f⟩⟩
 
-/-- **Earliest-due first, no starvation — one pass.**  If an entry `e` of channel `c` is due, a pass on `c`
+/-- **Earliest-due first, no starvation — one pass, given a free job slot.**  (`started` is
+`passStart s.clock true …`: `job_avail()` is assumed true — with all `numjobs` slots taken by open jobs nothing starts
+until one closes; the pass is uninterrupted.)  If an entry `e` of channel `c` is due, a pass on `c`
 (any reports, any injected failure) starts an entry due no later than `e`; and either that is `e` itself, or `e`
 is still scheduled and the number of entries due no later than `e` has gone down by exactly one (the started
 message comes back strictly later than now: at its back-off time, or at now + SLEEP_SYSFAIL). -/
@@ -353,8 +370,14 @@ theorem C15_hist_prompt (s : HSt) (hwf : WF s) (c : Chan) (e : Elt) (he : e ∈ 
                  rank (step s (.pass c letters f)).1 c e.dt + 1 = rank s c e.dt)) :=
   rank_passSt hwf he hdue (fun m hm => (C15_future s.clock m.birth c (hage m hm)).1) (by decide) letters f
 
-/-- **No starvation — bounded number of passes.**  A due entry `e` is started by one of the next `rank` passes
-on its channel (`rank` = number of entries due no later than `e`, itself included), whatever the reports. -/
+/-- **No starvation — bounded number of passes, given a free job slot at each pass, no system failure, and a clock
+that stands still meanwhile.**  A due entry `e` is started by one of the next `rank` passes on its channel (`rank` = number
+of entries due no later than `e`, itself included), whatever the reports.  Assumptions built into `passes` / `started`
+(audit): each of these passes finds a free job slot (`job_avail()`), runs uninterrupted and without an injected failure
+(`Fault.none`; with failures `C15_hist_prompt` still gives progress per pass, but a `trouble` exit re-schedules the failing
+message only SLEEP_SYSFAIL later, so the count is not bounded by `rank`), and the clock does not move between them (time
+advancing only makes more entries due: entries due no later than `e.dt` are the same set, so the bound is unaffected, but
+this is not stated).  It counts passes, not seconds. -/
 theorem C15_hist_no_starvation (s : HSt) (hwf : WF s) (c : Chan) (e : Elt) (he : e ∈ (s.q c).toList)
     (hdue : e.dt ≤ s.clock) (hage : ∀ m ∈ s.msgs, s.clock - m.birth < 4294967296) (ls : Nat → List Byte) :
     ∃ j, j < rank s c e.dt ∧ started (passes s c ls j) c = some e :=
@@ -412,13 +435,17 @@ theorem C15_retry_le_bound (lifetime L : Int) (h32 : lifetime < 4294967296) (hL 
 
 /-- **Bounded time to expiry, over all fault-free histories.**  Invariant: every scheduled entry is due by
 `birth + (⌊√lifetime⌋ + skip)²` or is already due.  It is preserved by every history made of time advancing,
-wake-ups, ALRM, passes answered with K/Z/D, and clean restarts — together with well-formedness and
-nothing-is-lost. -/
+wake-ups, ALRM, (uninterrupted) passes answered with K/Z/D, clean restarts, and NEW MESSAGES ARRIVING through todo/
+(`BStep.arrive`: todo_do schedules them at `now`, i.e. already due) — together with well-formedness and
+nothing-is-lost.  Base cases: the empty queue (`C15_hist_init`, from which arrivals now populate it:
+`C15_hist_bounded_from_empty`) and any queue directory a new process finds whose persisted due times respect the bound
+(`C15_hist_load_inv`). -/
 theorem C15_hist_bounded (s : HSt) (L : Int) (h32 : s.lifetime < 4294967296) (hL : IsSqrt s.lifetime L)
     (hinv : DInv L s) (l : List BStep) (hk : allKZD l) : DInv L (runB s l) ∧ (runB s l).lifetime = s.lifetime :=
   inv_runB l s hinv (fun t b c h => C15_retry_le_bound s.lifetime L h32 hL t b c h) hk
 
-/-- **Every message leaves the channel in bounded time** (spawners answering K/Z/D): in any state reached as in
+/-- **Every message leaves the channel in bounded time — counted in passes, given a free job slot at each pass, no system
+failure and spawners answering K/Z/D**: in any state reached as in
 `C15_hist_bounded`, once the clock has reached `birth + (⌊√lifetime⌋ + skip)²` a scheduled message `e` is due,
 and within `rank` further passes on its channel (`rank` = entries due no later than it) it is started, that
 pass is the expiring one, and afterwards its channel file is gone and it is off the channel heap; if no file
@@ -723,6 +750,36 @@ theorem C15_hist_init (lifetime clock L : Int) :
     DInv L ({ lifetime := lifetime, clock := clock } : HSt) := by
   refine ⟨⟨fun c => by cases c <;> exact heap_empty, heap_empty, List.nodup_nil, fun c => by cases c <;> exact List.nodup_nil,
     fun c e he => by cases c <;> cases he⟩, (fun m hm => by cases hm), (fun c e he => by cases c <;> cases he)⟩
+
+/-- **Base case after `pqstart()`**: on any queue directory with unique message numbers whose persisted due times (the
+mtimes of the channel files) are not beyond the expiry bound of their message or not in the future (`MtimesDueBy` — true
+of every queue the daemon itself wrote while the invariant held: pqfinish persists heap entries), the new process
+satisfies the whole invariant: well-formed, nothing lost, every entry due by the bound.  Complement: without the
+hypothesis it fails — a channel file with an mtime far in the future (written from outside) is scheduled at that time
+(`example` below, the audit's probe). -/
+theorem C15_hist_load_inv (s : HSt) (L : Int) (hn : (s.msgs.map (·.id)).Nodup) (hmt : MtimesDueBy L s) :
+    DInv L (step s .load).1 :=
+  ⟨wf_loadSt hn, tracked_loadSt s, dueby_loadSt hn hmt⟩
+
+/-- **An arriving message keeps the invariant** (todo_do: info/<id> created now, `pe.dt = now()`, into pqchan[c] for each
+channel with recipients, into pqdone if none): well-formedness, nothing-is-lost and the expiry bound — the new entries are
+already due. -/
+theorem C15_hist_arrive (s : HSt) (L : Int) (hinv : DInv L s) (id n0 n1 : Nat) : DInv L (step s (.arrive id n0 n1)).1 :=
+  ⟨wf_arriveSt hinv.1 id n0 n1, tracked_arriveSt hinv.1 hinv.2.1 id n0 n1, dueby_arriveSt hinv.1 hinv.2.2 id n0 n1⟩
+
+/-- **From the empty queue**: every fault-free history of arrivals, time, wake-ups, ALRM, passes answered K/Z/D and clean
+restarts — starting with nothing queued — satisfies the invariant at every point; so `C15_hist_leaves` applies to every
+message such a history ever takes in. -/
+theorem C15_hist_bounded_from_empty (lifetime clock L : Int) (h32 : lifetime < 4294967296) (hL : IsSqrt lifetime L)
+    (l : List BStep) (hk : allKZD l) : DInv L (runB ({ lifetime := lifetime, clock := clock } : HSt) l) :=
+  (C15_hist_bounded _ L h32 hL (C15_hist_init lifetime clock L) l hk).1
+
+/-- non-vacuity: two messages arrive (one with recipients on both channels, one with none), a pass defers, time passes;
+and the audit's probe: a persisted due time beyond the bound breaks `MtimesDueBy` and `DueBy` after pqstart -/
+example : let s := runB ({ lifetime := 604800, clock := 5000 } : HSt) [.arrive 7 2 1, .arrive 9 0 0, .pass .loc [90, 75], .tick 100]
+    s.q0.toList = [⟨5100, 7⟩] ∧ s.q1.toList = [⟨5000, 7⟩] ∧ s.done.toList = [⟨5000, 9⟩] ∧ (s.find 7).map (·.birth) = some 5000 := by decide
+example : let s := run ({ lifetime := 604800 } : HSt) [.mk 7 .loc 1000 99999999 2, .load, .clock 5000]
+    s.q0.toList = [⟨99999999, 7⟩] ∧ expiryBound 777 1000 .loc = 620369 ∧ IsSqrt 604800 777 := by decide
 
 /-- a history: message 7 (local, born at 1000, 2 recipients, due at 2000) and message 9 (due at 1990) -/
 def exS : HSt := run { lifetime := 604800 } [.mk 7 .loc 1000 2000 2, .mk 9 .loc 1500 1990 1, .load, .clock 2000]
